@@ -63,6 +63,8 @@ CONSTANTS
   FoldSrcs,    \* cv: subset of {"explicit","default"}
   FoldPrecCat, \* cv: catalogue of per-fold diagonal precisions: [fold label -> [channel -> positive int]]
   FoldPrecIds, \* subset of 0..Len(FoldPrecCat); 0 = not per fold
+  Unbals,      \* subset of BOOLEAN: TRUE = the partial RDMs come from calc_rdm_unbalanced
+               \* (calc_rdm_movie(unbalanced=True), calc_rdm_unbalanced(list))
   PermLevel,   \* 0: no permutation actions; 1: trimmed permutations; 2: all permutations
   EmitMod,     \* emit one terminal state in EmitMod (1 = all)
   EmitCoef     \* cv: emit the coefficient matrices implied by contrib
@@ -76,6 +78,14 @@ VARIABLES inp,     \* the input chosen by Init (never changed by the pipeline ac
           out,     \* the final labelled RDMs object (abstract)
           contrib  \* cv: ghost bag (sequence) of the ordered fold pairs <<m, n>> that entered the average
 vars == <<inp, stage, means, kern, built, srt, out, contrib>>
+
+\* calc_rdm_unbalanced as defined for property C15 (specs/Unbalanced.tla, not edited): Result(i) fixes for an
+\* input record the admissible observation pairs per slot, their factors, weights and statistics and - for the
+\* dot / quadratic kernels - the exact rational RDM.  Only its definitions are used (complete data,
+\* weighting "number", no pre-existing 'index' descriptor); its enumeration constants get fixed values.
+U == INSTANCE Unbalanced WITH pc <- stage, Weightings <- {"number"}, FoldModes <- {"none"}, NanMode <- "none",
+                              Design <- "any", NoDescs <- {FALSE}, IdxKinds <- {"none"}, Priors <- {FALSE}
+IsCv(m) == m \in {"crossnobis", "poisson_cv"}
 
 (* ======================= arithmetic ===================================== *)
 Abs(x) == IF x < 0 THEN -x ELSE x
@@ -139,14 +149,21 @@ NChOf(pd) == Len(pd.x[1])
 
 \* the time(-bin) slices of a movie input: bin b holds the SUM over its time points, dd = bin size
 BinsOf(i) == IF i.bins = <<>> THEN [t \in 1..Len(i.x3) |-> {t}] ELSE i.bins
+DefaultFoldOf(lab) == [o \in 1..Len(lab) |-> Cardinality({j \in 1..o : lab[j] = lab[o]})]
+\* the fold descriptor of a dataset: given, or (balanced estimators) the k-th occurrence of a condition is fold k
+FoldsFor(i, lab, given) == IF i.foldsrc = "explicit" THEN given
+                           ELSE IF i.foldsrc = "default" THEN DefaultFoldOf(lab) ELSE <<>>
 Slice(i, b) ==
   LET S == BinsOf(i)[b]  ts == SortedSeq(S) IN
-  [lab |-> i.lab, ext |-> i.ext, dd |-> Cardinality(S),
+  [lab |-> i.lab, ext |-> i.ext, dd |-> Cardinality(S), fold |-> FoldsFor(i, i.lab, i.fold),
    x |-> [o \in 1..Len(i.lab) |-> [c \in 1..Len(i.x3[1][1]) |->
             Sum([j \in 1..Len(ts) |-> i.x3[ts[j]][o][c]])]]]
-Subs(i) == CASE i.mode = "single" -> << [lab |-> i.lab, x |-> i.x, dd |-> 1, ext |-> i.ext] >>
-             [] i.mode = "list"   -> << [lab |-> i.lab, x |-> i.x, dd |-> 1, ext |-> i.ext],
-                                        [lab |-> i.lab2, x |-> i.x2, dd |-> 1, ext |-> i.ext2] >>
+Subs(i) == CASE i.mode = "single" -> << [lab |-> i.lab, x |-> i.x, dd |-> 1, ext |-> i.ext,
+                                           fold |-> FoldsFor(i, i.lab, i.fold)] >>
+             [] i.mode = "list"   -> << [lab |-> i.lab, x |-> i.x, dd |-> 1, ext |-> i.ext,
+                                         fold |-> FoldsFor(i, i.lab, i.fold)],
+                                        [lab |-> i.lab2, x |-> i.x2, dd |-> 1, ext |-> i.ext2,
+                                         fold |-> FoldsFor(i, i.lab2, i.fold2)] >>
              [] i.mode = "movie"  -> [b \in 1..Len(BinsOf(i)) |-> Slice(i, b)]
 \* the precision used for partial RDM r (list input may carry one per dataset)
 PrecOf(i, r) == IF i.mode = "list" /\ r = 2 THEN i.prec2 ELSE i.prec
@@ -212,14 +229,14 @@ BuildOp(pd, useDesc, m, k) ==
       rowlab == [g \in 1..n |-> pd.lab[first(m[g].key)]]
       prop(col) == IF averaged /\ ~ConstWithin(pd, col) THEN <<>>
                    ELSE [g \in 1..n |-> col[first(m[g].key)]]
-  IN [lab |-> rowlab, vec |-> k.vec, rates |-> k.rates,
+  IN [lab |-> rowlab, vec |-> k.vec, rates |-> k.rates, ub |-> <<>>, pairs |-> <<>>,
       grp |-> prop([o \in 1..NObsOf(pd) |-> Grp(pd.lab[o])]),
       ext |-> prop(pd.ext)]
 
 (* ======================= SortAlpha ====================================== *)
 PermRows(b, p) ==
   LET n == Len(b.lab) IN
-  [lab |-> Pick(b.lab, p), vec |-> VecFromSel(b.vec, n, p),
+  [lab |-> Pick(b.lab, p), vec |-> VecFromSel(b.vec, n, p), ub |-> b.ub, pairs |-> b.pairs,
    rates |-> IF b.rates = <<>> THEN <<>> ELSE Pick(b.rates, p),
    grp |-> IF b.grp = <<>> THEN <<>> ELSE Pick(b.grp, p),
    ext |-> IF b.ext = <<>> THEN <<>> ELSE Pick(b.ext, p)]
@@ -230,6 +247,7 @@ SortOp(b, useDesc) == IF useDesc THEN PermRows(b, StableArgsort(b.lab)) ELSE b
 \* every partial scattered into a NaN matrix over the union; only the aligned descriptor survives
 Scatter(s, all) ==
   LET n == Len(all)  inS(l) == l \in Range(s.lab) IN
+  IF s.pairs # <<>> /\ s.rates # <<>> THEN <<>> ELSE   \* poisson_cv: the values are formed from the per-fold rates
   [k \in 1..CLen(n) |-> LET pq == PairAt(n, k)  a == all[pq[1]]  b == all[pq[2]] IN
      IF inS(a) /\ inS(b) THEN MatAt(s.vec, Len(s.lab), IndexOf(s.lab, a), IndexOf(s.lab, b))
      ELSE Undefined]
@@ -240,24 +258,32 @@ ScatterRows(s, all, col) ==      \* per-row payload (rates) scattered alike, <<>
 AlignTo(s, auth) == IF s.lab = auth.lab \/ Cardinality(Range(auth.lab)) # Len(auth.lab) THEN s
                     ELSE PermRows(s, [j \in 1..Len(auth.lab) |-> IndexOf(s.lab, auth.lab[j])])
 TimeOf(i, b) == LET ts == SortedSeq(BinsOf(i)[b]) IN RNorm(Sum([j \in 1..Len(ts) |-> i.tv[ts[j]]]), Len(ts))
+\* one RDM of the result: condensed vector, per-row rates (poisson) or per-fold rates (poisson_cv), the
+\* slot statistics of an unbalanced correlation / poisson RDM, the bag of fold pairs of a cross-validated one
+Entry(v, rt, sp) == [vec |-> v, rates |-> rt, ub |-> sp.ub, pairs |-> sp.pairs]
+ScatterRates(i, sp, all) ==
+  IF sp.rates = <<>> THEN <<>>
+  ELSE IF i.method = "poisson_cv" THEN [m \in 1..Len(sp.rates) |-> ScatterRows(sp, all, sp.rates[m])]
+  ELSE ScatterRows(sp, all, sp.rates)
+\* unbalanced slot statistics refer to rows by position: re-indexed to the union of the labels
+ScatterUb(sp, all) ==
+  IF sp.ub = <<>> THEN sp ELSE [sp EXCEPT !.ub = [sp.ub EXCEPT !.rows = [j \in 1..Len(sp.lab) |-> IndexOf(all, sp.lab[j])]]]
 CombineOp(i, s) ==
   CASE i.mode = "single" ->
          [lab |-> s[1].lab, grp |-> s[1].grp, ext |-> s[1].ext, time |-> <<>>,
-          rdms |-> << [vec |-> s[1].vec, rates |-> s[1].rates] >>]
+          rdms |-> << Entry(s[1].vec, s[1].rates, s[1]) >>]
     [] i.mode = "movie" ->
          [lab |-> s[1].lab, grp |-> s[1].grp, ext |-> s[1].ext,
           time |-> [b \in 1..Len(s) |-> TimeOf(i, b)],
-          rdms |-> [b \in 1..Len(s) |-> [vec |-> s[b].vec, rates |-> s[b].rates]]]
+          rdms |-> [b \in 1..Len(s) |-> Entry(s[b].vec, s[b].rates, s[b])]]
     [] i.mode = "list" /\ i.useDesc ->
          LET all == FirstApp(s[1].lab \o s[2].lab) IN
          [lab |-> all, grp |-> <<>>, ext |-> <<>>, time |-> <<>>,
-          rdms |-> [r \in 1..2 |-> [vec |-> Scatter(s[r], all),
-                                    rates |-> IF s[r].rates = <<>> THEN <<>>
-                                              ELSE ScatterRows(s[r], all, s[r].rates)]]]
+          rdms |-> [r \in 1..2 |-> Entry(Scatter(s[r], all), ScatterRates(i, s[r], all), ScatterUb(s[r], all))]]
     [] i.mode = "list" /\ ~i.useDesc ->
          LET s2 == AlignTo(s[2], s[1]) IN
          [lab |-> s[1].lab, grp |-> s[1].grp, ext |-> s[1].ext, time |-> <<>>,
-          rdms |-> << [vec |-> s[1].vec, rates |-> s[1].rates], [vec |-> s2.vec, rates |-> s2.rates] >>]
+          rdms |-> << Entry(s[1].vec, s[1].rates, s[1]), Entry(s2.vec, s2.rates, s2) >>]
 
 (* ======================= the whole pipeline as operators ================ *)
 Opts(i) == [method |-> i.method, rm |-> i.rm, prior |-> i.prior]
@@ -265,13 +291,10 @@ MeansOf(i) == LET S == Subs(i) IN [r \in 1..Len(S) |-> AverageOp(S[r], i.useDesc
 KernOf(i, m) == [r \in 1..Len(m) |-> KernelOp(m[r], Opts(i), PrecOf(i, r))]
 BuiltOf(i, m, k) == LET S == Subs(i) IN [r \in 1..Len(m) |-> BuildOp(S[r], i.useDesc, m[r], k[r])]
 SortedOf(i, b) == [r \in 1..Len(b) |-> SortOp(b[r], i.useDesc)]
-OutOf(i) == LET m == MeansOf(i)  k == KernOf(i, m)  b == BuiltOf(i, m, k) IN CombineOp(i, SortedOf(i, b))
 
 (* ======================================================================== *)
 (*                     cross-validated estimators (C02)                     *)
 (* ======================================================================== *)
-\* default fold descriptor: the k-th occurrence of a condition is fold k
-DefaultFoldOf(lab) == [o \in 1..Len(lab) |-> Cardinality({j \in 1..o : lab[j] = lab[o]})]
 CountIn(lab, fold, a, m) == Cardinality({o \in 1..Len(lab) : lab[o] = a /\ fold[o] = m})
 \* admissible: >= 2 folds, every condition observed equally often (>= 1) in each fold
 FoldBalanced(lab, fold) ==
@@ -286,13 +309,13 @@ DefaultAdmissible(lab) ==
   /\ Cardinality({o \in 1..Len(lab) : lab[o] = lab[1]}) >= 2
 
 \* the working dataset after the fold descriptor is fixed
-CvData(i, fold) == [lab |-> i.lab, fold |-> fold, x |-> i.x]
+CvData(i, fold) == [lab |-> i.lab, fold |-> fold, x |-> i.x, dd |-> 1]
 CvSort(d) == LET p == StableArgsort(d.lab) IN
-             [lab |-> Pick(d.lab, p), fold |-> Pick(d.fold, p), x |-> Pick(d.x, p)]
+             [lab |-> Pick(d.lab, p), fold |-> Pick(d.fold, p), x |-> Pick(d.x, p), dd |-> d.dd]
 \* statistics of condition a within fold m
 FoldStat(d, a, m) ==
   LET n == Len(d.lab)  member(o) == d.lab[o] = a /\ d.fold[o] = m IN
-  [key |-> a, dd |-> 1,
+  [key |-> a, dd |-> d.dd,
    cnt |-> Sum([o \in 1..n |-> IF member(o) THEN 1 ELSE 0]),
    sum |-> [c \in 1..Len(d.x[1]) |-> Sum([o \in 1..n |-> IF member(o) THEN d.x[o][c] ELSE 0])]]
 FoldMeansOp(d) ==
@@ -305,7 +328,7 @@ FoldPairs(nf) == SortSeq(SetToSeq({mn \in (1..nf) \X (1..nf) : mn[1] # mn[2]}),
 \* (x_am - x_bm) W (x_an - x_bn)' / P for one ordered fold pair; W = identity, an integer matrix, or
 \* - with one diagonal precision per fold - the precision of the two folds' averaged covariance
 \*   inv((inv N_m + inv N_n)/2) = diag(2 p_m p_n / (p_m + p_n))
-PairProd(fmn, i, m, n, a, b) ==
+PairProd(fmn, i, N, m, n, a, b) ==
   LET ctr == Centered(Opts(i))
       gam == fmn.st[m][a]  gbm == fmn.st[m][b]  gan == fmn.st[n][a]  gbn == fmn.st[n][b]
       da == UDen(gam, ctr)  db == UDen(gbm, ctr)
@@ -313,15 +336,15 @@ PairProd(fmn, i, m, n, a, b) ==
       dm == [c \in 1..P |-> UNum(gam, ctr)[c] * db - UNum(gbm, ctr)[c] * da]
       dn == [c \in 1..P |-> UNum(gan, ctr)[c] * db - UNum(gbn, ctr)[c] * da]
       den == da * da * db * db * P
-  IN IF i.fprec = <<>> THEN RNorm(Bilin(dm, i.prec, dn), den)
+  IN IF i.fprec = <<>> THEN RNorm(Bilin(dm, N, dn), den)
      ELSE LET pm == i.fprec[fmn.folds[m]]  pn == i.fprec[fmn.folds[n]] IN
           RSum([c \in 1..P |-> RNorm(dm[c] * dn[c] * 2 * pm[c] * pn[c], (pm[c] + pn[c]) * den)])
-PairProductsOp(fmn, i) ==
+PairProductsOp(fmn, i, N) ==
   LET nc == Len(fmn.conds)  pairs == FoldPairs(Len(fmn.folds)) IN
   [pairs |-> pairs,
    prod |-> IF i.method = "crossnobis"
             THEN [j \in 1..Len(pairs) |-> [k \in 1..CLen(nc) |->
-                     LET pq == PairAt(nc, k) IN PairProd(fmn, i, pairs[j][1], pairs[j][2], pq[1], pq[2])]]
+                     LET pq == PairAt(nc, k) IN PairProd(fmn, i, N, pairs[j][1], pairs[j][2], pq[1], pq[2])]]
             ELSE <<>>,
    \* poisson_cv: regularised rates of the fold means, rates[fold][condition][channel]
    rates |-> IF i.method = "poisson_cv"
@@ -334,13 +357,53 @@ AverageOp2(fmn, pp) ==
    vec |-> IF pp.prod = <<>> THEN <<>>
            ELSE [k \in 1..CLen(nc) |-> RDivInt(RSum([j \in 1..np |-> pp.prod[j][k]]), np)],
    rates |-> pp.rates]
+\* the cross-validated RDM of one plain dataset pd (labels, folds, data numerators, denominator dd)
+CvPartial(i, pd, N) ==
+  LET d == CvSort([lab |-> pd.lab, fold |-> pd.fold, x |-> pd.x, dd |-> pd.dd])
+      fmn == FoldMeansOp(d)  pp == PairProductsOp(fmn, i, N)  av == AverageOp2(fmn, pp) IN
+  [lab |-> av.lab, vec |-> av.vec, rates |-> av.rates, ub |-> <<>>, pairs |-> pp.pairs, folds |-> fmn.folds,
+   grp |-> [g \in 1..Len(av.lab) |-> Grp(av.lab[g])], ext |-> <<>>]
 CvOutOf(i, fold) ==
-  LET d == CvSort(CvData(i, fold))  fmn == FoldMeansOp(d)  pp == PairProductsOp(fmn, i)
-      av == AverageOp2(fmn, pp) IN
-  [lab |-> av.lab, grp |-> [g \in 1..Len(av.lab) |-> Grp(av.lab[g])], ext |-> <<>>, time |-> <<>>,
-   folds |-> fmn.folds, pairs |-> pp.pairs,
-   rdms |-> << [vec |-> av.vec, rates |-> av.rates] >>]
+  LET sp == CvPartial(i, [lab |-> i.lab, fold |-> fold, x |-> i.x, dd |-> 1], i.prec) IN
+  [lab |-> sp.lab, grp |-> sp.grp, ext |-> <<>>, time |-> <<>>,
+   folds |-> sp.folds, pairs |-> sp.pairs,
+   rdms |-> << Entry(sp.vec, sp.rates, sp) >>]
 FoldOf(i) == IF i.foldsrc = "default" THEN DefaultFoldOf(i.lab) ELSE i.fold
+
+(* ======================= unbalanced partial RDMs (calc_rdm_unbalanced) ==== *)
+\* the input record of Unbalanced!Result for one plain dataset; without a fold descriptor a cross-validated
+\* method treats every observation as its own fold (documented fallback of calc_rdm_unbalanced)
+UnbInput(i, pd, N) ==
+  LET n == NObsOf(pd) IN
+  [dlab |-> pd.lab, nodesc |-> ~i.useDesc, idx |-> "none", ival |-> <<>>, prior |-> FALSE,
+   lab |-> IF i.useDesc THEN pd.lab ELSE [o \in 1..n |-> o],
+   fold |-> IF i.foldsrc = "explicit" THEN pd.fold ELSE <<>>, usefold |-> (i.foldsrc = "explicit"),
+   x |-> pd.x, valid |-> [o \in 1..n |-> 1..NChOf(pd)], m |-> i.method, w |-> "number", prec |-> N]
+\* exact kernels: the data are x / dd, the dot and quadratic kernels scale with 1 / dd^2
+ScaleDD(v, dd) == IF v = Undefined THEN v ELSE RNorm(v[1], v[2] * dd * dd)
+UnbPartial(i, pd, N) ==
+  LET res == U!Result(UnbInput(i, pd, N))
+      nc == Len(res.conds)
+      exact == res.kind \in {"dot", "quad"}
+      first(key) == IF i.useDesc THEN IndexOf(pd.lab, key) ELSE key
+      averaged == i.useDesc /\ nc # NObsOf(pd)
+      prop(col) == IF averaged /\ ~ConstWithin(pd, col) THEN <<>> ELSE [g \in 1..nc |-> col[first(res.conds[g])]]
+  IN [lab |-> [g \in 1..nc |-> pd.lab[first(res.conds[g])]],           \* rows in order of first appearance, not sorted
+      vec |-> IF exact THEN [k \in 1..CLen(nc) |-> ScaleDD(res.rdm[k], pd.dd)]
+              ELSE [k \in 1..CLen(nc) |-> <<>>],
+      rates |-> <<>>, pairs |-> <<>>,
+      \* correlation / poisson: the pairs, factors, weights and statistics of every slot (sqrt / log: trusted kernel)
+      ub |-> IF exact THEN <<>>
+             ELSE [kind |-> res.kind, dd |-> pd.dd, rows |-> [g \in 1..nc |-> g], self |-> res.self, cross |-> res.cross],
+      grp |-> prop([o \in 1..NObsOf(pd) |-> Grp(pd.lab[o])]), ext |-> prop(pd.ext)]
+
+(* ======================= the whole pipeline as one operator ============== *)
+PartialsOf(i) ==
+  LET S == Subs(i) IN
+  IF i.unbal THEN [r \in 1..Len(S) |-> UnbPartial(i, S[r], PrecOf(i, r))]
+  ELSE IF IsCv(i.method) THEN [r \in 1..Len(S) |-> CvPartial(i, S[r], PrecOf(i, r))]
+  ELSE LET m == MeansOf(i)  k == KernOf(i, m)  b == BuiltOf(i, m, k) IN SortedOf(i, b)
+OutOf(i) == CombineOp(i, PartialsOf(i))
 
 \* coefficient of the product x_o * x_o2 in the crossnobis value of the condition pair (a, b), one
 \* channel, identity precision: what the bag `pairs` implies (positions in folds) -  num / den
@@ -380,36 +443,66 @@ ListNoDescOk(lab, lab2) ==
   \/ lab2 = lab
   \/ /\ Cardinality(Range(lab)) = Len(lab) /\ Len(lab2) = Len(lab) /\ Range(lab2) = Range(lab)
 
-InitSingle ==
-  \E method \in Methods, rm \in RMs, prec \in PrecSet, prior \in PriorSet, useDesc \in UseDescs :
-    /\ OptOk(method, rm, prec, prior)
-    /\ \E lab \in [1..NObs -> Lab], x \in MatSet(NObs), ext \in ExtSet(NObs) :
-         inp = [mode |-> Mode, method |-> method, rm |-> rm, prec |-> prec, prior |-> prior,
-                useDesc |-> useDesc, lab |-> lab, x |-> x, ext |-> ext]
-InitList ==
-  \E method \in Methods, rm \in RMs, prec \in PrecSet, prec2 \in PrecSet, prior \in PriorSet,
-     useDesc \in UseDescs :
-    /\ OptOk(method, rm, prec, prior) /\ OptOk(method, rm, prec2, prior)
-    /\ (prec = <<>>) <=> (prec2 = <<>>)     \* "a given precision": given for both datasets or for neither
-    /\ \E lab \in [1..NObs -> Lab], lab2 \in [1..NObs2 -> Lab] :
-         /\ (useDesc \/ ListNoDescOk(lab, lab2))
-         /\ \E x \in MatSet(NObs), x2 \in MatSet(NObs2) :
-              inp = [mode |-> Mode, method |-> method, rm |-> rm, prec |-> prec, prior |-> prior,
-                     useDesc |-> useDesc,
-                     lab |-> lab, x |-> x, ext |-> [o \in 1..NObs |-> Grp(lab[o])],
-                     lab2 |-> lab2, x2 |-> x2, ext2 |-> [o \in 1..NObs2 |-> Grp(lab2[o])],
-                     prec2 |-> prec2]
-InitMovie ==
-  \E method \in Methods, prec \in PrecSet, prior \in PriorSet, useDesc \in UseDescs, bins \in BinSet :
-    /\ OptOk(method, FALSE, prec, prior)
-    /\ \E lab \in [1..NObs -> Lab], x3 \in [1..NT -> MatSet(NObs)], ext \in ExtSet(NObs) :
-         inp = [mode |-> Mode, method |-> method, rm |-> FALSE, prec |-> prec, prior |-> prior,
-                useDesc |-> useDesc, lab |-> lab, x3 |-> x3, ext |-> ext, bins |-> bins,
-                tv |-> [t \in 1..NT |-> TimeVals[t]]]
 \* the admissible designs (labels, folds); constant-level definitions, so TLC computes them once
 DesignsExplicit == {d \in [1..NObs -> Lab] \X [1..NObs -> 1..NFold] : FoldBalanced(d[1], d[2])}
 DesignsDefault == {<<lab, DefaultFoldOf(lab)>> :
                      lab \in {l \in [1..NObs -> Lab] : DefaultAdmissible(l) /\ Range(DefaultFoldOf(l)) \subseteq 1..NFold}}
+DesignsExplicit2 == {d \in [1..NObs2 -> Lab] \X [1..NObs2 -> 1..NFold] : FoldBalanced(d[1], d[2])}
+DesignsDefault2 == {<<lab, DefaultFoldOf(lab)>> :
+                     lab \in {l \in [1..NObs2 -> Lab] : DefaultAdmissible(l) /\ Range(DefaultFoldOf(l)) \subseteq 1..NFold}}
+AnyLab == {<<lab, <<>>>> : lab \in [1..NObs -> Lab]}
+AnyLab2 == {<<lab, <<>>>> : lab \in [1..NObs2 -> Lab]}
+\* the fold descriptor is only given (or defaulted) for the cross-validated methods
+FoldSrcSet(method) == IF IsCv(method) THEN FoldSrcs ELSE {"none"}
+\* <<labels, fold descriptor>> of the first / second dataset.  Balanced estimators: fold-balanced designs (explicit)
+\* or equal counts (default, the descriptor itself is derived).  Unbalanced estimator without fold descriptor:
+\* any labelling, every observation is its own fold.
+LabFolds(foldsrc, unbal) ==
+  CASE foldsrc = "none" -> AnyLab
+    [] foldsrc = "explicit" -> DesignsExplicit
+    [] foldsrc = "default" -> IF unbal THEN AnyLab ELSE {<<d[1], <<>>>> : d \in DesignsDefault}
+LabFolds2(foldsrc, unbal) ==
+  CASE foldsrc = "none" -> AnyLab2
+    [] foldsrc = "explicit" -> DesignsExplicit2
+    [] foldsrc = "default" -> IF unbal THEN AnyLab2 ELSE {<<d[1], <<>>>> : d \in DesignsDefault2}
+\* option combinations of the new dimensions that exist in the API
+NewOk(method, useDesc, unbal, fprec, prec) ==
+  /\ (IsCv(method) /\ ~unbal) => useDesc               \* the balanced cv estimators require a descriptor
+  /\ fprec # <<>> => (method = "crossnobis" /\ prec = <<>> /\ ~unbal)
+
+InitSingle ==
+  \E method \in Methods, rm \in RMs, prec \in PrecSet, prior \in PriorSet, useDesc \in UseDescs, unbal \in Unbals :
+   \E foldsrc \in FoldSrcSet(method) :
+    /\ OptOk(method, rm, prec, prior) /\ NewOk(method, useDesc, unbal, <<>>, prec) /\ (unbal => ~rm)
+    /\ \E d \in LabFolds(foldsrc, unbal), x \in MatSet(NObs), ext \in ExtSet(NObs) :
+         inp = [mode |-> Mode, method |-> method, rm |-> rm, prec |-> prec, prior |-> prior,
+                useDesc |-> useDesc, unbal |-> unbal, foldsrc |-> foldsrc, fold |-> d[2], fprec |-> <<>>,
+                lab |-> d[1], x |-> x, ext |-> ext]
+InitList ==
+  \E method \in Methods, rm \in RMs, prec \in PrecSet, prec2 \in PrecSet, prior \in PriorSet,
+     useDesc \in UseDescs, unbal \in Unbals :
+   \E foldsrc \in FoldSrcSet(method) :
+    /\ OptOk(method, rm, prec, prior) /\ OptOk(method, rm, prec2, prior)
+    /\ NewOk(method, useDesc, unbal, <<>>, prec) /\ (unbal => (~rm /\ useDesc))
+    /\ (prec = <<>>) <=> (prec2 = <<>>)     \* "a given precision": given for both datasets or for neither
+    /\ \E d \in LabFolds(foldsrc, unbal), d2 \in LabFolds2(foldsrc, unbal) :
+         /\ (useDesc \/ ListNoDescOk(d[1], d2[1]))
+         /\ \E x \in MatSet(NObs), x2 \in MatSet(NObs2) :
+              inp = [mode |-> Mode, method |-> method, rm |-> rm, prec |-> prec, prior |-> prior,
+                     useDesc |-> useDesc, unbal |-> unbal, foldsrc |-> foldsrc, fold |-> d[2], fprec |-> <<>>,
+                     lab |-> d[1], x |-> x, ext |-> [o \in 1..NObs |-> Grp(d[1][o])],
+                     lab2 |-> d2[1], x2 |-> x2, ext2 |-> [o \in 1..NObs2 |-> Grp(d2[1][o])],
+                     fold2 |-> d2[2], prec2 |-> prec2]
+InitMovie ==
+  \E method \in Methods, prec \in PrecSet, fprec \in FPrecSet, prior \in PriorSet, useDesc \in UseDescs,
+     bins \in BinSet, unbal \in Unbals :
+   \E foldsrc \in FoldSrcSet(method) :
+    /\ OptOk(method, FALSE, prec, prior) /\ NewOk(method, useDesc, unbal, fprec, prec)
+    /\ \E d \in LabFolds(foldsrc, unbal), x3 \in [1..NT -> MatSet(NObs)], ext \in ExtSet(NObs) :
+         inp = [mode |-> Mode, method |-> method, rm |-> FALSE, prec |-> prec, prior |-> prior,
+                useDesc |-> useDesc, unbal |-> unbal, foldsrc |-> foldsrc, fold |-> d[2], fprec |-> fprec,
+                lab |-> d[1], x3 |-> x3, ext |-> ext, bins |-> bins,
+                tv |-> [t \in 1..NT |-> TimeVals[t]]]
 InitCv ==
   \E method \in Methods, rm \in RMs, prec \in PrecSet, fprec \in FPrecSet, prior \in PriorSet,
      foldsrc \in FoldSrcs :
@@ -417,7 +510,7 @@ InitCv ==
     /\ (fprec # <<>> => method = "crossnobis" /\ prec = <<>>)
     /\ \E d \in (IF foldsrc = "default" THEN DesignsDefault ELSE DesignsExplicit), x \in MatSet(NObs) :
          inp = [mode |-> Mode, method |-> method, rm |-> rm, prec |-> prec, prior |-> prior,
-                useDesc |-> TRUE, lab |-> d[1], x |-> x, fold |-> d[2], foldsrc |-> foldsrc,
+                useDesc |-> TRUE, unbal |-> FALSE, lab |-> d[1], x |-> x, fold |-> d[2], foldsrc |-> foldsrc,
                 fprec |-> fprec]
 
 Init == /\ CASE Mode = "single" -> InitSingle
@@ -428,7 +521,7 @@ Init == /\ CASE Mode = "single" -> InitSingle
         /\ contrib = <<>>
 
 (* ----------------------- C01 stages ------------------------------------- *)
-Average == /\ stage = "init" /\ inp.mode # "cv"
+Average == /\ stage = "init" /\ inp.mode # "cv" /\ ~inp.unbal /\ ~IsCv(inp.method)
            /\ means' = MeansOf(inp) /\ stage' = "averaged"
            /\ UNCHANGED <<inp, kern, built, srt, out, contrib>>
 Kernel(method) == /\ stage = "averaged" /\ inp.method = method
@@ -440,6 +533,14 @@ Build == /\ stage = "kernel"
 SortAlpha == /\ stage = "built"
              /\ srt' = SortedOf(inp, built) /\ stage' = "sorted"
              /\ UNCHANGED <<inp, means, kern, built, out, contrib>>
+\* partial RDMs that do not go through Average .. SortAlpha: the cross-validated estimators per dataset / time
+\* bin (calc_rdm sorts the dataset by condition itself) and calc_rdm_unbalanced (no alphabetical re-sort)
+PartialCv == /\ stage = "init" /\ inp.mode # "cv" /\ IsCv(inp.method) /\ ~inp.unbal
+             /\ srt' = PartialsOf(inp) /\ stage' = "sorted"
+             /\ UNCHANGED <<inp, means, kern, built, out, contrib>>
+PartialUnbalanced == /\ stage = "init" /\ inp.mode # "cv" /\ inp.unbal
+                     /\ srt' = PartialsOf(inp) /\ stage' = "sorted"
+                     /\ UNCHANGED <<inp, means, kern, built, out, contrib>>
 \* the three ways the (sorted) partial RDMs are combined; written out so that TLC's coverage names them
 Single == /\ stage = "sorted" /\ inp.mode = "single"
           /\ out' = CombineOp(inp, srt) /\ stage' = "done"
@@ -466,7 +567,7 @@ FoldMeans == /\ stage = "cvsorted"
              /\ means' = [means EXCEPT !.fm = FoldMeansOp(means.d)] /\ stage' = "foldmeans"
              /\ UNCHANGED <<inp, kern, built, srt, out, contrib>>
 PairProducts == /\ stage = "foldmeans"
-                /\ kern' = PairProductsOp(means.fm, inp) /\ stage' = "products"
+                /\ kern' = PairProductsOp(means.fm, inp, inp.prec) /\ stage' = "products"
                 /\ UNCHANGED <<inp, means, built, srt, out, contrib>>
 AverageFoldPairs == /\ stage = "products"
                     /\ built' = AverageOp2(means.fm, kern)
@@ -476,7 +577,7 @@ AverageFoldPairs == /\ stage = "products"
 BuildCv == /\ stage = "averagedcv"
            /\ out' = [lab |-> built.lab, grp |-> [g \in 1..Len(built.lab) |-> Grp(built.lab[g])],
                       ext |-> <<>>, time |-> <<>>, folds |-> means.fm.folds, pairs |-> contrib,
-                      rdms |-> << [vec |-> built.vec, rates |-> built.rates] >>]
+                      rdms |-> << Entry(built.vec, built.rates, [ub |-> <<>>, pairs |-> contrib]) >>]
            /\ stage' = "done"
            /\ UNCHANGED <<inp, means, kern, built, srt, contrib>>
 
@@ -486,18 +587,34 @@ BuildCv == /\ stage = "averagedcv"
 Recompute(i) ==
   IF i.mode = "cv"
   THEN LET d0 == CvData(i, FoldOf(i))  d == CvSort(d0)  fm == FoldMeansOp(d)
-           pp == PairProductsOp(fm, i)  av == AverageOp2(fm, pp) IN
+           pp == PairProductsOp(fm, i, i.prec)  av == AverageOp2(fm, pp) IN
        /\ means' = [d |-> d, fm |-> fm] /\ kern' = pp /\ built' = av /\ srt' = <<>>
        /\ contrib' = pp.pairs /\ out' = CvOutOf(i, FoldOf(i))
+  ELSE IF i.unbal \/ IsCv(i.method)
+  THEN LET s == PartialsOf(i) IN
+       /\ means' = <<>> /\ kern' = <<>> /\ built' = <<>> /\ srt' = s /\ contrib' = <<>>
+       /\ out' = CombineOp(i, s)
   ELSE LET m == MeansOf(i)  k == KernOf(i, m)  b == BuiltOf(i, m, k)  s == SortedOf(i, b) IN
        /\ means' = m /\ kern' = k /\ built' = b /\ srt' = s /\ contrib' = <<>>
        /\ out' = CombineOp(i, s)
+\* the fold labels travel with the rows: defaulted folds of a balanced estimator become explicit (the unbalanced
+\* estimator's fallback - every observation its own fold - does not depend on the order)
+FixFolds(i) == i.foldsrc = "default" /\ ~i.unbal
+NewFold(i, lab, given, p) == IF i.foldsrc = "explicit" THEN Pick(given, p)
+                            ELSE IF FixFolds(i) THEN Pick(DefaultFoldOf(lab), p) ELSE given
+NewSrc(i) == IF FixFolds(i) THEN "explicit" ELSE i.foldsrc
 PermRowsInp(i, p) ==
-  CASE i.mode \in {"single", "list"} ->
-         [i EXCEPT !.lab = Pick(i.lab, p), !.x = Pick(i.x, p), !.ext = Pick(i.ext, p)]
+  CASE i.mode = "single" ->
+         [i EXCEPT !.lab = Pick(i.lab, p), !.x = Pick(i.x, p), !.ext = Pick(i.ext, p),
+                   !.fold = NewFold(i, i.lab, i.fold, p), !.foldsrc = NewSrc(i)]
+    [] i.mode = "list" ->
+         [i EXCEPT !.lab = Pick(i.lab, p), !.x = Pick(i.x, p), !.ext = Pick(i.ext, p),
+                   !.fold = NewFold(i, i.lab, i.fold, p), !.foldsrc = NewSrc(i),
+                   !.fold2 = IF FixFolds(i) THEN DefaultFoldOf(i.lab2) ELSE i.fold2]
     [] i.mode = "movie" ->
          [i EXCEPT !.lab = Pick(i.lab, p), !.ext = Pick(i.ext, p),
-                   !.x3 = [t \in 1..Len(i.x3) |-> Pick(i.x3[t], p)]]
+                   !.x3 = [t \in 1..Len(i.x3) |-> Pick(i.x3[t], p)],
+                   !.fold = NewFold(i, i.lab, i.fold, p), !.foldsrc = NewSrc(i)]
     [] i.mode = "cv" ->   \* the fold labels travel with the rows: afterwards the folds are explicit
          [i EXCEPT !.lab = Pick(i.lab, p), !.x = Pick(i.x, p), !.fold = Pick(FoldOf(i), p),
                    !.foldsrc = "explicit"]
@@ -532,7 +649,7 @@ PermuteChannels == /\ stage = "done" /\ PermLevel >= 1 /\ inp.mode \in {"single"
 
 Next == \/ Average
         \/ \E m \in {"euclidean", "correlation", "mahalanobis", "poisson"} : Kernel(m)
-        \/ Build \/ SortAlpha \/ Single \/ ListBranch \/ Movie
+        \/ Build \/ SortAlpha \/ PartialCv \/ PartialUnbalanced \/ Single \/ ListBranch \/ Movie
         \/ DefaultFolds \/ ExplicitFolds \/ SortByCond \/ FoldMeans \/ PairProducts
         \/ AverageFoldPairs \/ BuildCv
         \/ PermuteRows \/ RelabelFolds \/ PermuteChannels
@@ -559,7 +676,7 @@ ZeroIffEqualMeans ==
          /\ (v[1] = 0) <=> (\A c \in 1..Len(m[p].sum) : m[p].sum[c] * m[q].cnt = m[q].sum[c] * m[p].cnt)
 \* after the library's ordering the labels are strictly increasing: one row per distinct label
 LabelOrderSorted ==
-  (Done /\ inp.useDesc /\ inp.mode \in {"single", "movie", "cv"}) =>
+  (Done /\ inp.useDesc /\ inp.mode \in {"single", "movie", "cv"} /\ ~inp.unbal) =>
      \A p \in 1..(Len(out.lab) - 1) : out.lab[p] < out.lab[p + 1]
 OneRowPerLabel ==
   (Done /\ inp.useDesc) =>
@@ -572,7 +689,7 @@ DirectValue(i, r, a, b) ==
   LET pd == Subs(i)[r] IN
   PairValue(GroupStat(pd, TRUE, a), GroupStat(pd, TRUE, b), Opts(i), PrecOf(i, r))
 EntryBelongsToLabels ==
-  (Done /\ inp.useDesc /\ inp.mode # "cv") =>
+  (Done /\ inp.useDesc /\ inp.mode # "cv" /\ ~inp.unbal /\ ~IsCv(inp.method)) =>
     LET n == Len(out.lab) IN
     \A r \in 1..Len(out.rdms) : \A p \in 1..n : \A q \in 1..n : p < q =>
        LET a == out.lab[p]  b == out.lab[q]  L == Range(Subs(inp)[r].lab) IN
@@ -585,37 +702,64 @@ EntryBelongsToLabels ==
 RowsAreObservations ==
   (Done /\ ~inp.useDesc) =>
     /\ out.lab = inp.lab
-    /\ \A p \in 1..Len(inp.lab) : \A q \in 1..Len(inp.lab) : p < q =>
+    /\ inp.unbal \/ \A p \in 1..Len(inp.lab) : \A q \in 1..Len(inp.lab) : p < q =>
          out.rdms[1].vec[Cidx(Len(inp.lab), p, q)] =
             PairValue(GroupStat(Subs(inp)[1], FALSE, p), GroupStat(Subs(inp)[1], FALSE, q), Opts(inp), inp.prec)
 \* a list of datasets: RDM r is the RDM of dataset r, scattered; absent labels give NaN rows
+\* (holds for the cross-validated methods and for calc_rdm_unbalanced partials alike)
+SingleOfList(i, r) ==
+  LET pd == Subs(i)[r] IN
+  [mode |-> "single", method |-> i.method, rm |-> i.rm, prior |-> i.prior, useDesc |-> TRUE, prec |-> PrecOf(i, r),
+   unbal |-> i.unbal, foldsrc |-> i.foldsrc, fold |-> IF r = 1 THEN i.fold ELSE i.fold2, fprec |-> <<>>,
+   lab |-> pd.lab, x |-> pd.x, ext |-> pd.ext]
 ListAligned ==
   (Done /\ inp.mode = "list" /\ inp.useDesc) =>
     \A r \in 1..2 :
-      LET i1 == [mode |-> "single", method |-> inp.method, rm |-> inp.rm, prior |-> inp.prior,
-                 useDesc |-> TRUE, prec |-> PrecOf(inp, r),
-                 lab |-> Subs(inp)[r].lab, x |-> Subs(inp)[r].x, ext |-> Subs(inp)[r].ext]
-          o1 == OutOf(i1)  n1 == Len(o1.lab) IN
-      \A p \in 1..n1 : \A q \in 1..n1 : p < q =>
-         o1.rdms[1].vec[Cidx(n1, p, q)] =
-            MatAt(out.rdms[r].vec, Len(out.lab), IndexOf(out.lab, o1.lab[p]), IndexOf(out.lab, o1.lab[q]))
-\* a movie is the stack of the RDMs computed separately at each (binned) time point
+      LET o1 == OutOf(SingleOfList(inp, r))  n1 == Len(o1.lab) IN
+      /\ Range(o1.lab) = Range(Subs(inp)[r].lab)
+      /\ out.rdms[r].pairs = o1.rdms[1].pairs
+      /\ (inp.method = "poisson_cv" /\ ~inp.unbal) => out.rdms[r].vec = <<>>
+      /\ ~(inp.method = "poisson_cv" /\ ~inp.unbal) =>
+          /\ \A p \in 1..n1 : \A q \in 1..n1 : p < q =>
+                o1.rdms[1].vec[Cidx(n1, p, q)] =
+                   MatAt(out.rdms[r].vec, Len(out.lab), IndexOf(out.lab, o1.lab[p]), IndexOf(out.lab, o1.lab[q]))
+          \* a pair with a label the dataset does not have is NaN
+          /\ \A p \in 1..Len(out.lab) : \A q \in 1..Len(out.lab) :
+                (p < q /\ ~({out.lab[p], out.lab[q]} \subseteq Range(o1.lab))) =>
+                   out.rdms[r].vec[Cidx(Len(out.lab), p, q)] = Undefined
+\* a movie is the stack of the RDMs computed separately at each (binned) time point - by the balanced
+\* estimators, the cross-validated ones, or calc_rdm_unbalanced
+SingleOfSlice(i, b) ==
+  LET sl == Slice(i, b) IN
+  [mode |-> "single", method |-> i.method, rm |-> FALSE, prior |-> i.prior, useDesc |-> i.useDesc, prec |-> i.prec,
+   unbal |-> i.unbal, foldsrc |-> i.foldsrc, fold |-> i.fold, fprec |-> i.fprec,
+   lab |-> sl.lab, x |-> sl.x, ext |-> sl.ext]
 MovieIsStack ==
   (Done /\ inp.mode = "movie") =>
     /\ Len(out.rdms) = Len(BinsOf(inp)) /\ Len(out.time) = Len(out.rdms)
     /\ \A b \in 1..Len(out.rdms) :
-         LET sl == Slice(inp, b)
-             i1 == [mode |-> "single", method |-> inp.method, rm |-> FALSE, prior |-> inp.prior,
-                    useDesc |-> inp.useDesc, prec |-> inp.prec,
-                    lab |-> sl.lab, x |-> sl.x, ext |-> sl.ext]
-             \* the single pipeline on the bin SUMS with dd = 1 differs from the bin MEANS only by the
-             \* scale |bin|: squared distances scale by |bin|^2, correlations not at all
-             o1 == OutOf(i1)  s == sl.dd IN
-         /\ o1.lab = out.lab
-         /\ inp.method \in {"euclidean", "mahalanobis"} =>
+         \* the single pipeline on the bin SUMS with dd = 1 differs from the bin MEANS only by the
+         \* scale |bin|: squared distances and cross-products scale by |bin|^2, correlations not at all
+         LET o1 == OutOf(SingleOfSlice(inp, b))  s == Slice(inp, b).dd IN
+         /\ o1.lab = out.lab /\ o1.grp = out.grp /\ o1.ext = out.ext
+         /\ out.rdms[b].pairs = o1.rdms[1].pairs
+         /\ inp.method \in {"euclidean", "mahalanobis", "crossnobis"} =>
               \A k \in 1..Len(out.rdms[b].vec) :
-                 out.rdms[b].vec[k] = RNorm(o1.rdms[1].vec[k][1], o1.rdms[1].vec[k][2] * s * s)
-         /\ inp.method = "correlation" => out.rdms[b].vec = o1.rdms[1].vec
+                 out.rdms[b].vec[k] = ScaleDD(o1.rdms[1].vec[k], s)
+         /\ (inp.method = "correlation" /\ ~inp.unbal) => out.rdms[b].vec = o1.rdms[1].vec
+         /\ (inp.method = "correlation" /\ inp.unbal) =>
+              (out.rdms[b].ub.self = o1.rdms[1].ub.self /\ out.rdms[b].ub.cross = o1.rdms[1].ub.cross)
+\* where the designs coincide the unbalanced estimator gives the balanced value: euclidean / mahalanobis for ANY
+\* repetition counts; crossnobis with explicit folds on fold-balanced designs (keyed by label: the unbalanced
+\* rows are in order of first appearance, the balanced ones sorted)
+UnbalancedMatchesBalanced ==
+  (Done /\ inp.mode # "cv" /\ inp.unbal /\ inp.useDesc
+        /\ (inp.method \in {"euclidean", "mahalanobis"} \/ (inp.method = "crossnobis" /\ inp.foldsrc = "explicit"))) =>
+    LET ob == OutOf([inp EXCEPT !.unbal = FALSE])  n == Len(out.lab) IN
+    /\ Range(ob.lab) = Range(out.lab) /\ Len(ob.lab) = n /\ ob.time = out.time
+    /\ \A r \in 1..Len(out.rdms) : \A p \in 1..n : \A q \in 1..n : p < q =>
+          out.rdms[r].vec[Cidx(n, p, q)] =
+             MatAt(ob.rdms[r].vec, n, IndexOf(ob.lab, out.lab[p]), IndexOf(ob.lab, out.lab[q]))
 
 \* the label-keyed content of a result: invariant under everything that only reorders
 \* (for poisson the entry is the bag over channels of the unordered pairs of rates - what the value
@@ -627,8 +771,9 @@ PoisBag(ra, rb) == IF ra = <<>> \/ rb = <<>> THEN Undefined ELSE
 ResKey(o) == IF o = <<>> THEN {} ELSE
   LET n == Len(o.lab) IN
   {<<r, {RowRec(o, pq[1]), RowRec(o, pq[2])},
-     IF o.rdms[r].rates # <<>> THEN PoisBag(o.rdms[r].rates[pq[1]], o.rdms[r].rates[pq[2]])
-     ELSE o.rdms[r].vec[Cidx(n, pq[1], pq[2])]>> :
+     IF o.rdms[r].rates # <<>> /\ o.rdms[r].pairs = <<>>
+     THEN PoisBag(o.rdms[r].rates[pq[1]], o.rdms[r].rates[pq[2]])
+     ELSE IF o.rdms[r].vec = <<>> THEN <<>> ELSE o.rdms[r].vec[Cidx(n, pq[1], pq[2])]>> :
      r \in 1..Len(o.rdms), pq \in {x \in (1..n) \X (1..n) : x[1] < x[2]}}
 \* for poisson_cv the rates are per fold: keyed by the fold label, invariant under row/channel
 \* permutation only (relabelling renames the keys)
@@ -690,8 +835,8 @@ CvSymmetric ==
   (stage = "products" /\ inp.method = "crossnobis") =>
     LET nc == Len(means.fm.conds) IN
     \A j \in 1..Len(kern.pairs) : \A p \in 1..nc : \A q \in 1..nc : p < q =>
-       PairProd(means.fm, inp, kern.pairs[j][1], kern.pairs[j][2], p, q)
-         = PairProd(means.fm, inp, kern.pairs[j][1], kern.pairs[j][2], q, p)
+       PairProd(means.fm, inp, inp.prec, kern.pairs[j][1], kern.pairs[j][2], p, q)
+         = PairProd(means.fm, inp, inp.prec, kern.pairs[j][1], kern.pairs[j][2], q, p)
 \* default folds: the k-th occurrence of a condition is fold k
 DefaultFoldsRule ==
   (stage = "folds" /\ inp.foldsrc = "default") =>
